@@ -8,7 +8,7 @@
 # make the check report a violation is a machinery hole.  Output: out/selftest_<id>.json (read by the thorough run).
 id=$1
 cd /verif
-export GOFLAGS=-mod=mod GOPROXY=off GOSUMDB=off GOTOOLCHAIN=local
+export GOFLAGS=-mod=mod GOPROXY=off GOSUMDB=off GOTOOLCHAIN=local GVC_NORETRY=1
 wt=${TMPDIR:-/tmp}/selftest_wt.$$
 mkdir -p out
 git -C /repo worktree add -q --detach $wt HEAD || exit 2
